@@ -174,6 +174,14 @@ func (e *env) reloadServing() {
 	post := servedSecs(e.s)
 	e.r.Eval(1)
 	e.r.Count("serving_options_reloaded_in_place", 1)
+	// ... and once more: a second reload in a row must find nothing left to migrate
+	if err := e.s.GetPersistOptions().Reload(e.store); err == nil {
+		if names, d := diff(exact(post), exact(servedSecs(e.s))); len(names) > 0 {
+			e.violate(keyOf("served-config-changes-at-second-reload-in-a-row", strings.Join(names, "+")),
+				"two reloads of the serving options in a row: the second one changed what is served (after first -> after second): "+d,
+				map[string]interface{}{"phase": e.phase, "case": e.caseNo, "seed": e.r.Seed})
+		}
+	}
 	if names, d := diff(normalised(pre), normalised(post)); len(names) > 0 {
 		e.violate(keyOf("served-config-changes-at-reload-of-serving-options", strings.Join(names, "+")),
 			"every update so far was accepted and stored or refused and rolled back, yet reloading the serving options from storage changes what is served (before -> after): "+d,
